@@ -11,6 +11,14 @@ PY = "/venv/bin/python"
 
 # property -> (technique, level text, level note, design ref)
 CLAIMED = {
+    "C08": ("TLA+ specification of reductions (spec/Arrays.tla Reduce: ordered fibres per output coordinate + NaN policy) enumerated by TLC with "
+            "DropsOnlyAxis / Partition theorems; NumPy evaluates each fibre; compared with dimarray for 11 reductions and percentile",
+            "TLC enumerates shapes with sizes 1-3 up to 3-d (thorough: all, plus 4-d), every NaN pattern for <= 4 cells and a slice/all/sparse family "
+            "beyond, dtypes f/i/b, every axis by name / position / negative position, every ordered tuple of dims, axis=None, both skipna settings; "
+            "the spec decides which input cells form each fibre, in which order, and when the result is NaN; NumPy's 1-d function is applied to "
+            "exactly those cells and compared (rtol 1e-9, NaN positions exact) together with dims, labels, metadata.",
+            "Trusted: TLC, projection/concretisation, NumPy 1-d reductions.",
+            "5 (C08)"),
     "C04": ("TLA+ specification of binary operations (spec/Arrays.tla BinOp = Align + pairing of cells by label coordinate) enumerated by TLC with "
             "DimsRule / UnionRule / PairRule / Commutes theorems; pairings replayed, NumPy ufuncs evaluate the paired cells",
             "TLC enumerates all ordered pairs of label sequences on a shared dimension (equal, permuted, nested, overlapping, disjoint; every storage "
